@@ -12,6 +12,7 @@ import argparse, json, os, re, subprocess, sys, tempfile, shutil
 
 HERE = os.path.dirname(os.path.dirname(os.path.abspath(__file__)))
 WT = os.environ.get("VERIF_MUT_WT", "/tmp/vfmut")
+CORPUS_PROPS = {"C01", "C02", "C03", "C04", "C05", "C06", "C07", "C08", "C13", "C16", "C19"}
 
 
 def sh(cmd, **kw):
@@ -45,6 +46,21 @@ def run_check(prop, tier, timeout=7200):
     except subprocess.TimeoutExpired as e:
         out, rc = (e.stdout or b"").decode(errors="replace") if isinstance(e.stdout, bytes) else (e.stdout or ""), "timeout"
     finally:
+        witnesses = []
+        try:      # harvest up to 3 witnesses with distinct mechanisms (for the regression corpus)
+            import glob
+            seen = set()
+            for f in sorted(glob.glob(os.path.join(ev, "replays", f"{prop}-*.json"))):
+                w = json.load(open(f))
+                if w.get("mechanism") in seen:
+                    continue
+                seen.add(w.get("mechanism"))
+                witnesses.append({"mechanism": w.get("mechanism"), "witness": w.get("witness")})
+                if len(witnesses) >= 3:
+                    break
+        except Exception:  # noqa: BLE001
+            pass
+        run_check.last_witnesses = witnesses
         shutil.rmtree(ev, ignore_errors=True)
     known = sorted(set(re.findall(r"\[mechanism=([^,\]]+)", out)))
     mechs = sorted(set(m.rstrip(",") for m in re.findall(r"mechanism=(\S+)", out)) - set(known))
@@ -59,6 +75,7 @@ def main():
     ap.add_argument("--tier", default="both")
     ap.add_argument("--cross", action="store_true")
     ap.add_argument("--keep", action="store_true")
+    ap.add_argument("--harvest", action="store_true", help="store witnesses of caught changes in vf/props/corpus/<PROP>.json")
     a = ap.parse_args()
     man = json.load(open(os.path.join(HERE, "MANIFEST.json")))
     registered = [c["property_id"] for c in man["checks"]]
@@ -89,6 +106,17 @@ def main():
                 r = run_check(prop, t)
                 ent[t] = r
                 print(sid, prop, t, "rc", r["rc"], r["mechanisms"][:4], r["tail"][-1:] if r["rc"] != 1 else "")
+                if a.harvest and r["rc"] == 1 and prop in CORPUS_PROPS:
+                    cpath = os.path.join(HERE, "vf", "props", "corpus", f"{prop}.json")
+                    os.makedirs(os.path.dirname(cpath), exist_ok=True)
+                    corpus = json.load(open(cpath)) if os.path.exists(cpath) else []
+                    corpus = [e for e in corpus if e.get("seeded") != sid]
+                    known = set(r.get("known_findings") or [])
+                    for w in getattr(run_check, "last_witnesses", []):
+                        if w["mechanism"] in known or w["witness"] is None:
+                            continue
+                        corpus.append({"seeded": sid, "mechanism": w["mechanism"], "tier": t, "witness": w["witness"]})
+                    json.dump(corpus, open(cpath, "w"), indent=0, sort_keys=True)
                 if r["rc"] == 1:
                     break
         if a.cross:
